@@ -716,6 +716,7 @@ static int unlink_common(int at, int dirfd, const char *path, int flags)
     if (r) {
         r->fired++;
         if (r->action == A_KILL) do_kill("unlink", np, r);
+        if (r->action == A_STALL) do_stall("stall-unlink", np, r);
         if (r->action == A_ERRNO || r->action == A_EINTR) {
             log_event("unlink", np, 0, -1, r->err, r->id);
             pthread_mutex_unlock(&lock);
